@@ -572,6 +572,9 @@ class Server(BaseComponent):
         if sock in self._buffers:
             del self._buffers[sock]
 
+        if sock in self._closeq:
+            self._closeq.remove(sock)
+
         if sock in self._clients:
             self._clients.remove(sock)
         else:
@@ -598,7 +601,7 @@ class Server(BaseComponent):
             socks = [sock]
 
         for sock in socks:
-            if not self._buffers[sock]:
+            if not self._buffers.get(sock):
                 self._close(sock)
             elif sock not in self._closeq:
                 self._closeq.append(sock)
@@ -639,6 +642,9 @@ class Server(BaseComponent):
 
     @handler('write')
     def write(self, sock, data):
+        if sock not in self._clients and sock not in self.__starttls:
+            # late write to a connection that is already gone
+            return
         if not self._poller.isWriting(sock):
             self._poller.addWriter(self, sock)
         self._buffers[sock].append(data)
@@ -733,6 +739,9 @@ class Server(BaseComponent):
 
     @handler('_write', priority=1)
     def _on_write(self, sock):
+        if sock not in self._buffers:
+            # late event for a connection that is already gone
+            return
         if self._buffers[sock]:
             data = self._buffers[sock].popleft()
             self._write(sock, data)
